@@ -24,6 +24,7 @@ def run(ck, F, tier):
     ck.rule("Y1b", "each assert!(k < m-n) guards exactly the write of a free column (same loop nest and guards as an insert(u, k))")
     ck.rule("Y2", "inserts copy rows of input column s into column k or m-n+j of a same-sized matrix; k += 1 once per free column")
     ck.rule("Y3", "error values are returned under exactly the documented conditions")
+    ck.rule("Y4", "every row operation of the elimination spans the row from the pivot column to the last column")
     ck.assume("domain of the property: at least one row")
     H = var("h")
     Rr, Cc = app(SM + "num_rows", H), app(SM + "num_cols", H)
@@ -108,7 +109,18 @@ def run(ck, F, tier):
     if e2 is not None and len(e2.guards) == 2 and e2.guards[0] == (app("lt", Cc, Rr), False):
         g, pol = e2.guards[1]
         r = repr(g)
-        ok2 = pol and r.startswith("not(std::iter::Iterator::any(") and "'range'" in r
+        ga = single_atom(g)
+        full = False
+        if ga and atom_fn(ga) == "not":
+            inner = single_atom(atom_args(ga)[0])
+            if inner and atom_fn(inner) == "std::iter::Iterator::any":
+                d = inner[2]
+                while isinstance(d, tuple) and d and d[0] in ("iterdesc", "rev"):
+                    d = d[1]
+                full = isinstance(d, tuple) and d[0] == "range" and d[1] == ("P", num(0)) and d[2] == ("P", Cc) and d[3] is False
+        ok2 = pol and full
     ck.inst("Y3", "NotFullRank", ok2, e2.site if e2 else F.body(FN).span,
-            "returned exactly when no column j in 0..m has a non-zero entry in the last echelon row")
+            "returned exactly when no column j of the whole range 0..m has a non-zero entry in the last echelon row (the scan must cover every column)")
+    from ..linalg_rules import row_operation_width
+    row_operation_width(ck, F, "Y4", "linalg::row_echelon_form", floor=2)
     ck.inst("Y3", "no-other-error", set(seen) <= {"ParityOverdetermined", "NotFullRank"}, F.body(FN).span, "only the two documented errors are returned early")
